@@ -36,7 +36,7 @@ var punctFrags = []string{
 
 var spaceFrags = []string{
 	" ", "  ", "\n", "\n", "\n    ", "\n  ", "\n        ", "\n ", "\t", "\r", "\r\n", "\x00", "\xff", "\xc3", "\xe2\x82",
-	"# c\n", "#", "\\\n", "\n\n", "\n    \n", "\n  # c\n", " \n", " ", " ", "\v", "\f", "\ufeff",
+	"# c\n", "#", "\\\n", "\\\r\n", "\\\r", "\\ \n", "\n\n", "\n    \n", "\n  # c\n", " \n", " ", " ", "\v", "\f", "\ufeff",
 }
 
 // uni draws an approximately uniform integer in [0, n). rapid's integer generators are heavily biased
@@ -103,7 +103,16 @@ func genSoup(t *rapid.T) []byte {
 			sb.WriteByte(' ')
 		}
 	}
+	// lookahead bugs live at the very end of the input: finish with a fragment that makes the lexer peek
+	if uni(t, 3, "tail") == 0 {
+		sb.WriteString(pick(t, tailFrags, "tailfrag"))
+	}
 	return []byte(sb.String())
+}
+
+var tailFrags = []string{
+	"\\", "\\\r", "\\\r\n", "\\\n", `"`, `'`, `f"`, `r'`, `"""`, `'''`, `""`, `"a""`, "0o", "-", "-0", "-0o", "\r", "#", "(", "x =", "x", "r", "f", "=", "!", "/", "<",
+	"\"\\", "\"\"\"\\", "\n ", "\n  x", "\x00", "x\x00", "\"\x00", ".", "x.", "x(", "x[", "{", "-\n", "0\n", "\\\x00",
 }
 
 // genLiterals: a chain of adjacent string literals in some expression context.
